@@ -66,11 +66,22 @@ def run():
     for key, clauses in v.fails.items():
         ev, run_ = idx[key]
         classify(chk, ev, run_, clauses, CLAUSES, info[ev["tid"]].get("script"))
+    # ---- the decision format itself: every way of cutting a well-formed diff into decisions (DecisionModel.tla) --------
+    from . import decmodel
+    dm = decmodel.run_models(chk)
+    dm_n = {}
+    for kind, cases in dm.items():
+        dm_n[kind] = decmodel.replay_py(chk, cases, kind)
+        chk.cov["traces_validated_against_impl"] += dm_n[kind]
+    chk.notes["DecisionModel_vs_apply_decisions"] = {"cases_replayed": dm_n, "rule": "every TLC-generated (base, decision list, "
+        "expected document) applied by nbdime.merging.decisions.apply_decisions; the result must equal the specification's"}
     for name, b, l, rr, inf in triples[:2]:
         chk.sample({"triple": name, "edit_script": inf.get("script"), "abstract": inf.get("abstract")})
     chk.cov["rule"] = ("triples: every (base, local, remote) reachable in spec/NotebookEdits.tla with one edit action per "
                        "side (TLC-enumerated; stratified seeded sample in quick) plus random walks; each merged under "
                        "'mergetool', the default and sampled/all CLI strategies; distinct by abstract triple")
+    chk.cov["rule"] += ("; decision lists: every case of spec/DecisionModel.tla (a well-formed diff of a bounded sub-document cut "
+                        "into decisions in 11 styles x 2 orders x extras; objects: a fate per key incl. clear / remove / take_max / base)")
     chk.assumptions += [
         "spec/MergeFormat.tla is the documented meaning of the decision format (docs/source/merging.rst); "
         "all-local/all-remote relabel every decision's action and read a null diff as empty",
